@@ -1,6 +1,7 @@
 (* Props/C01.v — Sequence numbers: the client view never diverges from the server.
    Statements only; proofs in Store/*Proofs.v.  Model: Store/System.v (any number of
-   connections on any number of dict-backend mailboxes, atomic command steps). *)
+   connections on any number of dict-backend and maildir-backend mailboxes, atomic command
+   steps). *)
 From PV Require Import Base.Prelude Store.Base Store.BaseProofs Store.Flags Store.ModSeq
      Store.Mailbox Store.MailboxProofs Store.View Store.ViewProofs Store.Compare
      Store.CompareProofs Store.Session Store.SelProofs Store.System Store.SystemProofs
@@ -74,6 +75,17 @@ Theorem C01_clients_in_sync : forall ls,
               /\ forall s, cls s = view_of (exec sys_empty ls) s.
 Proof. exact clients_in_sync. Qed.
 Print Assumptions C01_clients_in_sync.
+
+(* the maildir backend (update_selected = full rescan + set_messages, no modification log):
+   label sequences may create maildir mailboxes (CreateMaildir) as well as dict mailboxes
+   (CreateBox), so the theorem above covers both; spelled out for sequences that begin by
+   creating maildir mailboxes.  A kernel-evaluated maildir trace: C02_example_maildir. *)
+Theorem C01_maildir_clients_in_sync : forall boxes ls,
+  let ls' := map CreateMaildir boxes ++ ls in
+  exists cls, shadow_exec (sys_empty, fun _ => None) ls' = Some (exec sys_empty ls', cls)
+              /\ forall s, cls s = view_of (exec sys_empty ls') s.
+Proof. exact maildir_clients_in_sync. Qed.
+Print Assumptions C01_maildir_clients_in_sync.
 
 (* the numeric clauses for the responses of every step of every reachable state *)
 Theorem C01_numbers_in_range : forall ls l s start,
